@@ -12,18 +12,16 @@ RULE = ('files with 2-4 dimensions (lengths 1-4), 1-4 data variables over a rand
         'variables lacking the named dimensions; 1-3 named dimensions, each with a named reducer (sum prod min max mean; '
         'std/var only against the Python oracle) or a length-changing callable (numpy.diff, x[::k], numpy.convolve with an '
         'integer kernel in modes full/same/valid), incl. middle axes and mixed reducer/callable; keyword order random. '
-        'Malformed stream (~12%): unknown dimension, method without keepdims, missing method, the documented dict form. '
+        'the documented dict(func1d=f, **kwargs) form for ~30% of the callables (numpy.convolve with v=, mode= keywords); '
+        'Malformed stream (~12%): unknown dimension, method without keepdims, missing method. '
         'Every case: F = Coq model (Model/Apply.v, vm_compute) vs library: exception class or new dimension lengths + '
         'per-variable shape and cells (exact; non-dyadic means within 2^-40 relative or 2^-30 absolute); S = Coq spec_file_ok and an independent '
         'numpy oracle (explicit lane loops). Non-trivial = some variable changed shape.')
 TRUSTED = ['numpy reductions (method(axis, keepdims=True)) and apply_along_axis implement the pointwise definition NdApply.apply_axis '
            '(validated by the F comparison, not proved)',
            'binary64 results are compared with exact rationals: equal, or within 2^-40 relative / 2^-30 absolute for non-dyadic means (cancellation)',
-           'modelled, not verified: numpy assignment into an integer array truncates toward zero',
            'not in the Coq model (Python oracle only): std/var; numpy.convolve on a masked lane (numpy ignores the mask and uses hidden data)']
-ASSUMPTIONS = ['integer-typed variables with two or more named axes one of which is a mean are not generated '
-               '(binary64 rounding before the truncating store is outside the exact model)',
-               'dimension lengths >= 1; numpy broadcasting of a mismatching length-1 axis on assignment is not modelled']
+ASSUMPTIONS = ['dimension lengths >= 1; numpy broadcasting of a mismatching length-1 axis on assignment is not modelled']
 DIMS = ['t', 'z', 'y', 'x']
 REDS = ['sum', 'prod', 'min', 'max', 'mean']
 COMMUTING = {'sum', 'prod', 'min', 'max'}
@@ -45,6 +43,11 @@ def _gen_func(rng, tier, n):
     return dict(t='conv', mode=rng.choice(['full', 'same', 'valid']), ker=ker)
 
 
+def _base(f):
+    """the callable behind the documented dict(func1d=..., **kwargs) form"""
+    return f['inner'] if f['t'] == 'dict' else f
+
+
 def _one(rng, tier):
     nd = rng.randint(2, 4)
     names = rng.sample(DIMS, nd)
@@ -54,6 +57,9 @@ def _one(rng, tier):
     nf = rng.choice([1, 1, 2, 2, 3])
     fdims = rng.sample(names, min(nf, nd))
     funcs = [[d, _gen_func(rng, tier, dl[d])] for d in fdims]
+    for df in funcs:
+        if df[1]['t'] != 'red' and rng.random() < 0.3:
+            df[1] = dict(t='dict', inner=df[1])      # applyAlongDimensions(x=dict(func1d=f, **kwargs))
     use_prod = any(f['t'] == 'red' and f['name'] == 'prod' for _, f in funcs)
     vars_ = []
     nv = rng.randint(1, 4)
@@ -98,27 +104,21 @@ def _one(rng, tier):
     kind = 'ok'
     r = rng.random()
     if r < 0.12 or (tier == 'search' and r < 0.05):
-        bad = rng.choice(['nokey', 'cumsum', 'ptp', 'dict', 'dict'])
+        bad = rng.choice(['nokey', 'cumsum', 'ptp'])
         kind = 'bad-' + bad
         if bad == 'nokey':
             missing = [d for d in DIMS if d not in names] or ['q']
             funcs.insert(rng.randint(0, len(funcs)), [missing[0], dict(t='red', name='sum')])
         elif bad == 'cumsum':
             funcs[rng.randrange(len(funcs))][1] = dict(t='red', name='cumsum')
-        elif bad == 'ptp':
-            funcs[rng.randrange(len(funcs))][1] = dict(t='red', name=rng.choice(['ptp', 'median']))
         else:
-            funcs[rng.randrange(len(funcs))][1] = dict(t='dict')
-    # integer variables: keep the exact model applicable (see ASSUMPTIONS)
-    fd = {d: f for d, f in funcs}
-    for v in vars_:
-        named = [d for d in v['dims'] if d in fd]
-        if v['dtype'] != 'f8' and len(named) >= 2 and any(fd[d]['t'] == 'red' and fd[d]['name'] in NONINT for d in named):
-            v['dtype'] = 'f8'
+            funcs[rng.randrange(len(funcs))][1] = dict(t='red', name=rng.choice(['ptp', 'median']))
     if kind == 'ok':
         fs = [f for _, f in funcs]
         tags = set('red' if f['t'] == 'red' else 'call' for f in fs)
         kind = 'ok-' + ('mixed' if len(tags) > 1 else tags.pop()) + str(len(fs))
+        if any(f['t'] == 'dict' for f in fs):
+            kind += '-dict'
         if any(v['mask'] is not None for v in vars_):
             kind += '-masked'
     return dict(kind=kind, dims=dims, vars=vars_, funcs=funcs)
@@ -151,7 +151,10 @@ def _pyfunc(f):
         ker, mode = list(f['ker']), f['mode']
         return lambda a: np.convolve(a, ker, mode)
     if f['t'] == 'dict':
-        return dict(func1d=np.diff)
+        g = f['inner']
+        if g['t'] == 'conv':
+            return dict(func1d=np.convolve, v=list(g['ker']), mode=g['mode'])
+        return dict(func1d=_pyfunc(g))
     raise ValueError(f)
 
 
@@ -226,7 +229,7 @@ def _fdesc(f):
     if f['t'] == 'conv':
         return '(FConv %d%%nat [%s])' % (MODES[f['mode']], '; '.join('(Qmake %s 1)' % C.zc(k) for k in f['ker']))
     if f['t'] == 'dict':
-        return 'BadDict'
+        return _fdesc(f['inner'])
 
 
 def _in_model(case):
@@ -235,7 +238,7 @@ def _in_model(case):
         if _fdesc(f) is None:
             return False
     for v in case['vars']:
-        if v['mask'] is not None and any(d in fd and fd[d]['t'] == 'conv' for d in v['dims']):
+        if v['mask'] is not None and any(d in fd and _base(fd[d])['t'] == 'conv' for d in v['dims']):
             return False
     return True
 
@@ -259,8 +262,8 @@ def coq_term(case, obs):
     for v in case['vars']:
         cells = [None if (v['mask'] is not None and v['mask'][i]) else x for i, x in enumerate(v['data'])]
         # integer dtypes hold the truncated value of data/den (den is 1 for them)
-        vs.append('(IVar %d%%nat %s %s %s [%s])' % (
-            _vid(v['name']), C.cbool(v['dtype'] != 'f8'), C.natlist([_did(d) for d in v['dims']]),
+        vs.append('(IVar %d%%nat %s %s [%s])' % (
+            _vid(v['name']), C.natlist([_did(d) for d in v['dims']]),
             C.natlist([dl[d] for d in v['dims']]), '; '.join(_cell_in(x, v['den']) for x in cells)))
     return '(Case [%s] [%s] [%s] %s)' % (
         '; '.join('(%d%%nat, %d%%nat)' % (_did(d), n) for d, n in case['dims']),
@@ -297,7 +300,7 @@ def _apply1(a, k, f):
     if f['t'] == 'red':
         a = np.ma.masked_array(a)
         return getattr(np.ma, f['name'])(a, axis=k, keepdims=True) if hasattr(np.ma, f['name']) else getattr(a, f['name'])(axis=k, keepdims=True)
-    return _lanewise(_pyfunc(f), np.ma.masked_array(a), k)
+    return _lanewise(_pyfunc(_base(f)), np.ma.masked_array(a), k)
 
 
 def _same(exp, shape, cells):
@@ -317,19 +320,9 @@ def _same(exp, shape, cells):
     return True
 
 
-def _region(case):
-    fd = {d: f for d, f in case['funcs']}
-    if any(f['t'] == 'dict' for f in fd.values()):
-        return 2
-    for v in case['vars']:
-        if v['dtype'] != 'f8' and any(d in fd and fd[d]['t'] == 'red' and fd[d]['name'] in NONINT for d in v['dims']):
-            return 1
-    return 0
-
-
 def py_check(case, obs):
     import numpy as np
-    region = _region(case)
+    region = 0
     dl = dict(case['dims'])
     fd = {d: f for d, f in case['funcs']}
     malformed = any(d not in dl for d in fd) or any(
@@ -340,7 +333,7 @@ def py_check(case, obs):
         if malformed:
             return dict(s_ok=True, region=region, why='')
         return dict(s_ok=False, region=region, why='in-domain call raised %s: %s' % (obs['raises'], obs.get('msg')))
-    if malformed or region == 2:
+    if malformed:
         return dict(s_ok=True, region=region, why='')
     why = []
     with np.errstate(all='ignore'):
@@ -348,7 +341,7 @@ def py_check(case, obs):
         for d, n in case['dims']:
             if d in fd:
                 f = fd[d]
-                exp_dims.append([d, 1 if f['t'] == 'red' else len(_pyfunc(f)(np.arange(n)))])
+                exp_dims.append([d, 1 if f['t'] == 'red' else len(_pyfunc(_base(f))(np.arange(n)))])
             else:
                 exp_dims.append([d, n])
         if obs['dims'] != exp_dims:
@@ -377,7 +370,10 @@ def py_check(case, obs):
                     oks.append(_same(e, o['shape'], o['cells']))
                 if not (all(oks) if commuting else any(oks)):
                     why.append('%s: values differ from the axis-wise %s along %s' % (
-                        v['name'], [f.get('name', f['t']) for f in fs], [v['dims'][k] for k in axes]))
+                        v['name'], [_base(f).get('name', _base(f)['t']) for f in fs], [v['dims'][k] for k in axes]))
+                elif v['dtype'] != 'f8' and o['dtype'][0] != 'f' and any(
+                        f['t'] == 'red' and f['name'] in NONINT for f in fs):
+                    why.append('%s: %s of an integer variable stored as %s' % (v['name'], [f.get('name') for f in fs], o['dtype']))
     return dict(s_ok=not why, region=region, why='; '.join(why))
 
 
@@ -405,17 +401,18 @@ def shrink(case):
         yield dict(case, dims=[[d, n] for d, n in case['dims'] if d in used])
 
 
-LEVEL_TEXT = ('Theorems (Props/C03.v, all closed under the global context) over a Gallina model of applyAlongDimensions on arrays '
-              '(shape, index function) with option-Q cells: keepdims reductions with any associative-commutative operation commute '
-              'over any set of distinct axes, any rank/shape, masked-aware (C03_reducers_any_order, C03_masked_reducers_any_order, '
-              'C03_masked_iff_all_masked, C03_sum_prod_any_order); the code ignores naming order (C03_naming_order_irrelevant); every '
-              'output variable is the dtype cast of the per-axis composition over exactly its named axes (C03_values_axiswise); '
-              'variables lacking the dimensions are unchanged (C03_unaffected_vars, C03_cast_identity); new dimension lengths and '
-              'shape consistency incl. coordinate variables (C03_new_dimlens, C03_reducer_len_one, C03_result_wellformed); the property '
-              'holds for float-typed files (C03_spec_float_partial) and is refuted for integer variables reduced with mean '
-              '(C03_int_mean_refuted = known finding). Tie H: library vs model on every generated case incl. exception classes.')
+LEVEL_TEXT = ('Theorems (Props/C03.v, all closed under the global context) over a Gallina model of the repaired applyAlongDimensions on '
+              'arrays (shape, index function) with option-Q cells: every completed call satisfies the property, all dtypes, reducers and '
+              'callables incl. the dict form (C03_spec, full strength); every output variable is exactly the per-axis composition over its '
+              'named axes (C03_values_axiswise); variables lacking the dimensions are the same variables (C03_unaffected_vars); new '
+              'dimension lengths and shape consistency incl. coordinate variables (C03_new_dimlens, C03_reducer_len_one, '
+              'C03_result_wellformed); keepdims reductions with any associative-commutative operation commute over any set of distinct '
+              'axes, any rank/shape, masked-aware (C03_reducers_any_order, C03_masked_reducers_any_order, C03_masked_iff_all_masked, '
+              'C03_sum_prod_any_order); the code ignores naming order (C03_naming_order_irrelevant). No _partial/_refuted theorem is left: '
+              'the two defects found (integer mean truncated; dict form raising) are repaired (known_findings fixed:) and their inputs are '
+              'corpus cases. Tie H: library vs model on every generated case incl. exception classes.')
 LEVEL_NOTE = ('Trusted: Coq kernel + vm_compute; the harness; numpy axis semantics = NdApply.apply_axis (differentially validated). '
-              'Not proved: integrality preservation for integer variables under sum/min/max/prod/diff/convolve (correspondence only); '
-              'absence of ValueError for well-formed files; std/var and convolve-on-masked are Python-oracle only; the IOAPI wrapper and '
+              'Not proved: absence of ValueError for well-formed files; std/var and convolve-on-masked are Python-oracle only; a callable '
+              'that returns a scalar (x=numpy.mean) is outside the property and still fails on a non-leading axis; the IOAPI wrapper and '
               'the reduce_dim/convolve_dim string forms are not covered.')
 TECHNIQUE = 'Coq proof (induction over axis lists / permutations, fold exchange) + vm_compute refutation witness + differential correspondence'
